@@ -107,11 +107,17 @@ impl SymbolTable {
         self.contexts.pop().unwrap().max_size()
     }
 
+    /// The number of names declared in the outermost scope of the global context.
+    pub fn global_len(&self) -> usize {
+        self.contexts[0].symbols[0].len()
+    }
+
     /// Leaves every function context and every block scope that is still open,
-    /// keeping what was declared in the outermost scope of the global context.
-    pub fn reset_to_global(&mut self) {
+    /// keeping the first `keep` names declared in the outermost scope of the global context.
+    pub fn reset_to_global(&mut self, keep: usize) {
         self.contexts.truncate(1);
         self.contexts[0].symbols.truncate(1);
+        self.contexts[0].symbols[0].truncate(keep);
     }
 
     /// Returns true if the current context is a local (function) context
